@@ -31,19 +31,24 @@ standins.patch_clock(standins.CounterClock(1_700_000_000.0), mo, so)
 LAST_DETAIL = None
 APPX = {}
 ACTORS = []
+AWAITED = []      # ids of the sub-invocations some task body waits for (bookkeeping of the harness, used to classify hangs)
 
 # ---------------------------------------------------------------- cooperative task bodies (call trees)
+LEAF_WORK = [0]   # cooperative steps a leaf body takes before it returns (0 in the C09 trees; C11 varies it)
 def leaf(x: int):
+    for _ in range(LEAF_WORK[0]):
+        yield ("L", -5)
     return x
-    yield  # pragma: no cover  (a generator body)
 
 def wait_one(task_name, arg):
     inv = APPX[task_name](arg)
+    AWAITED.append(inv.invocation_id)
     r = yield from inv.result__gen()
     return r
 
 def wait_group(task_name, args):
     group = APPX[task_name].parallelize([(a,) for a in args])
+    AWAITED.extend(i.invocation_id for i in group.invocations)
     out = []
     for ev in group.results__gen():
         if ev[0] == "O":
@@ -125,7 +130,7 @@ install()
 def simulate(shape, slots, first, slices, quantum, no_priority=False):
     global LAST_DETAIL
     reset_uuid()
-    ACTORS.clear()
+    ACTORS.clear(); AWAITED.clear()
     coop.CURRENT[0] = None
     app = mk_app("mem", app_id="c09sim", runner_cls="ThreadRunner", max_threads=slots, min_threads=1, cached_status_time=0.0)
     tasks = {"leaf": app.task(leaf), "mid": app.task(mid), "root": app.task(root)}
